@@ -172,8 +172,29 @@ def check_any(inp):
                     fail(f'{fn} on {x!r}: internal error {type(ex).__name__}: {ex}')
 
 
+def check_repeat(inp):
+    """C16: processing again / after another document gives the declarations of the loaded document only"""
+    import json
+    docs = documents()
+    for k, doc in enumerate(docs):
+        parser = J.DznJsonAst(json.dumps(doc))
+        parser.process()
+        again = parser.process()
+        other = J.DznJsonAst(json.dumps(docs[(k + 1) % len(docs)]))
+        other.process()
+        third = parser.process()
+        for kind in S.KINDS:
+            want = S.document_decls(kind, doc)
+            for label, fct in (('second', again), ('third (after another parser ran)', third)):
+                if getattr(fct, kind) != want:
+                    fail(f'process() [document {k}], {label} call: FileContents.{kind} is\n{getattr(fct, kind)!r}\n'
+                         f'the contract requires\n{want!r}')
+
+
 def check_one(inp):
     fn = inp['function'].rsplit('.', 1)[-1]
+    if inp.get('mode') == 'repeat':
+        return check_repeat(inp)
     if inp.get('mode') == 'any':
         return check_any(inp)
     if fn in ('parse_element', 'process'):
